@@ -36,6 +36,21 @@ Definition str_op (op : cop) (x v : ustring) : bool :=
   | CLt => ustr_ltb x v | CGt => ustr_ltb v x
   | CLe => negb (ustr_ltb v x) | CGe => negb (ustr_ltb x v)
   end.
+Definition z_op (op : cop) (x v : Z) : bool :=
+  match op with
+  | CEq => Z.eqb x v | CNe => negb (Z.eqb x v)
+  | CLt => Z.ltb x v | CGt => Z.ltb v x
+  | CLe => Z.leb x v | CGe => Z.leb v x
+  end.
+(* Filter("modified", op, text): against a datetime the text is read as an instant (t); against text kept as
+   text it is compared as text (s); an object without `modified` fails every operator *)
+Definition mod_op (op : cop) (t : Z) (s : ustring) (o : obj) : bool :=
+  match omod o with
+  | VInst x => z_op op x t
+  | VNaive x => z_op op x t
+  | VText x => str_op op x s
+  | VNone => false
+  end.
 Definition type_op (op : cop) (v : ustring) (o : obj) : bool := str_op op (otype o) v.
 Definition oid_op (op : cop) (v : ustring) (o : obj) : bool := str_op op (oid o) v.
 Definition type_ne (v : ustring) (o : obj) : bool := negb (ustr_eqb (otype o) v).
